@@ -22,6 +22,11 @@ CHECKS = {
          "S: 9 scenarios of 2-3 real threads on a shared BlsCache (capacity 1,2) run under a scheduler that owns every lock acquisition through hook H1; every interleaving with <=3 preemptions (quick) / every interleaving (thorough, ~20k schedules) is executed; per schedule: each thread's verdict equals the cache-free verdict, len<=capacity at every scheduling point, no deadlock, the warmed cache still answers correctly. H: every history of <=3/<=4 operations from a 17-letter alphabet (verify valid/invalid over pairs sharing key or message, update, evict) on capacities 1,2,3. E: every pair list of length <=2/<=3 over 5 letters (incl. the infinity key and the empty message) x 6 signature kinds through verify, aggregate_verify, aggregate_verify_gt and the cache (cold/warm, 3 capacities).",
          "trusts: hook H1 reports every acquisition/release of the cache mutex; no shared state outside that mutex (unsafe_code denied in the workspace outside blst FFI); BLS signature uniqueness for the expected verdict",
          "DESIGN.md#c15"),
+ "C01": ("E", "exploration",
+         "bounded-exhaustive enumeration of generator outputs against an independent reference model of the condition rules",
+         "Every generator output of four stated layers (single condition: 52 opcode atoms x all argument lists of length <=2/<=3 over 27 letters x terminator; all 64 message modes with type-correct and singly-corrupted commitments; 17 integer atoms through every integer-typed condition and CREATE_COIN memo shapes; spend A with every ordered pair of ~107 interaction letters alone or with a child / sibling / double-spend carrying one letter; structural defects at all 5 list positions; the 1024-announcement and 6000-spend caps) is run through the real parse_spends with both visitors and the flag subsets of {NO_UNKNOWN_CONDS, STRICT_ARGS_COUNT, COST_CONDITIONS} and through the reference model written from the rule table (DESIGN.md Appendix A); verdict, canonical summary (incl. eligibility flags under the mempool visitor) and condition cost must be equal. 14M (quick) / ~90M (thorough) evaluations, exhaustive inside the stated alphabets.",
+         "trusts: the reference model mc::refcond (reviewable against Appendix A); valid public keys = the harness's own three keys; signatures are not validated here (C05); conditions interacting in groups of more than 3, messages >1025 bytes and most of the 65536 two-byte opcodes are outside the alphabet",
+         "DESIGN.md#c01"),
 }
 
 PENDING_REASON = "check not built yet in this round (planned: see DESIGN.md section for this property); not claimed until it runs"
